@@ -360,6 +360,35 @@ theorem step_inv {P : Tree T → Prop} (hP : ShapeInv I P) (ts : List (Tree T)) 
         · exact hset i (hP.skel _ _ (skel_collect I a) (hget hti)) t' h'
         · exact h' ▸ hP.skel _ _ (skel_collect I b) (hget htj)
       · cases hr
+  | insertTag i k v m p =>
+    simp only [stepM] at hr
+    split at hr
+    · rename_i t hti
+      simp only [Option.some.injEq] at hr; subst hr
+      obtain ⟨s1, s2⟩ := hP.splitAt t k (hget hti)
+      exact hset i (hP.merge _ _ (hP.merge _ _ s1 (hP.single _ p)) s2)
+    · cases hr
+  | moveRoot i w j pos p =>
+    simp only [stepM] at hr
+    split at hr
+    · rename_i t u0 hti htj
+      have hx : P (if w = 0 then Tree.nil else t) := by
+        split
+        · exact hP.nil
+        · exact hget hti
+      have h1 : ∀ t' ∈ ts.set i (if w = 0 then Tree.nil else t), P t' := hset i hx
+      split at hr
+      · simp only [Option.some.injEq] at hr; subst hr; exact h
+      · split at hr
+        · rename_i u huj
+          simp only [Option.some.injEq] at hr; subst hr
+          obtain ⟨s1, s2⟩ := hP.splitAt u pos (h1 _ (List.mem_of_getElem? huj))
+          intro t' ht'
+          rcases List.mem_or_eq_of_mem_set ht' with h' | h'
+          · exact h1 t' h'
+          · exact h' ▸ hP.merge _ _ (hP.merge _ _ s1 (hP.single _ p)) s2
+        · cases hr
+    · cases hr
 
 theorem run_inv {P : Tree T → Prop} (hP : ShapeInv I P) (ops : List (Op E M V)) (ts : List (Tree T))
     (h : ∀ t ∈ ts, P t) : ∀ r : List (Tree T) × List (Obs E G), runM I ts ops = some r → ∀ t ∈ r.1, P t := by
@@ -701,6 +730,47 @@ theorem step_prios (hI : Lawful I) (ts : List (Tree T)) (op : Op E M V) (hwf : A
         rw [map_set_same prios _ j b _ htj' (prios_of_skel_eq (skel_collect I b)),
           map_set_same prios ts i a _ hti (prios_of_skel_eq (skel_collect I a))]
       · cases hr
+  | insertTag i k v m p =>
+    simp only [stepM] at hr
+    simp only [stepP, List.getElem?_map]
+    split at hr
+    · rename_i t hti
+      simp only [Option.some.injEq] at hr; subst hr
+      simp [hti, List.map_set, prios_insertAt I hI t k _ p (hwf.get hti)]
+    · cases hr
+  | moveRoot i w j pos p =>
+    simp only [stepM] at hr
+    simp only [stepP, List.getElem?_map]
+    split at hr
+    · rename_i t u0 hti htj
+      have ht := hwf.get hti
+      have hlen : (prios t).length = (seq I t).length := by rw [prios_length, seq_length]
+      simp only [hti, htj, Option.map_some]
+      split at hr
+      · rename_i ho
+        simp only [Option.some.injEq] at hr; subst hr
+        have hk : ¬ (prios t).length = 1 := by rw [hlen]; exact onlyItem_none I t ht ho
+        rw [if_neg hk]
+      · rename_i it ho
+        obtain ⟨⟨q, hq⟩, hseq, _⟩ := onlyItem_some I hI t ht it ho
+        have hk : (prios t).length = 1 := by rw [hlen, hseq]; rfl
+        rw [if_pos hk]
+        have hx : WFt I (if w = 0 then Tree.nil else t) := by
+          split
+          · trivial
+          · exact ht
+        have hwf1 : AllWF I (ts.set i (if w = 0 then Tree.nil else t)) := hwf.set i hx
+        have hmap1 : (ts.map prios).set i (if w = 0 then [] else prios t) =
+            (ts.set i (if w = 0 then Tree.nil else t)).map prios := by
+          rw [List.map_set]; congr 1
+          split <;> rfl
+        split at hr
+        · rename_i u huj
+          simp only [Option.some.injEq] at hr; subst hr
+          simp only [hmap1, List.getElem?_map, huj, Option.map_some]
+          simp [List.map_set, prios_insertAt I hI u pos it p (hwf1.get huj)]
+        · cases hr
+    · cases hr
 
 /-- whole histories: the priority lists of the live treaps are `runP` of the operations and the
     observations the run produced -/
